@@ -24,6 +24,7 @@ import Arca.Proofs.TyNorm
 import Arca.Proofs.TySkel
 import Arca.Model.RunLoop
 import Arca.Gen.Skel
+import Arca.Proofs.LockFacts
 
 namespace Arca.Props.C19
 open Arca.Model Arca.Proofs.Ty
@@ -133,6 +134,40 @@ theorem validation_before_start_spelled :
     ∃ pre post, Arca.Gen.Skel.workflow_workflow_executableWorkflow_Execute =
         pre ++ "call:e.input.Unserialize(serializedInput)" :: post ∧ ∀ t ∈ pre, mentionsStart t = false :=
   occursBefore_sound _ _ _ validation_before_start
+
+/-! ### a refused input leaves the prepared workflow usable: the input lock is released on every path
+
+`Execute` validates the input under `e.inputLock`, a mutex of the PREPARED workflow (shared by all its runs).  If the path
+that refuses the input returned with the mutex held, the refusal itself would still be correct, but every later
+`Execute` of the prepared workflow would neither refuse nor run its input.  The statement is about the regenerated
+skeleton of `Execute` (`Arca.Gen.Skel`, split form `Arca.Gen.Locks`): the lock-balance checker accepts it, and by its
+soundness theorem every syntactic path through `Execute` that does not end in a panic locks the mutex only while free,
+unlocks it only while held, and returns with it free. -/
+
+open Arca.Model.LockBalance in
+/-- every path of `Execute` to a `return` — the one that refuses the input included — releases the input lock -/
+theorem input_lock_released_on_every_path :
+    ∃ b, parse "e.inputLock" (Arca.Proofs.LockFacts.toksOf "workflow_workflow_executableWorkflow_Execute") = some b ∧
+      ∀ n p, p ∈ pathsB n b → p.2 ≠ .panic → p.2.exits = true ∧ wellBalanced false p.1 := by
+  obtain ⟨b, hb, hpaths, _⟩ := Arca.Proofs.LockBalance.balanced_sound "e.inputLock" _ Arca.Proofs.LockFacts.execute_input_lock_balanced.1
+  exact ⟨b, hb, hpaths⟩
+
+open Arca.Model.LockBalance in
+/-- not vacuous: `Execute` locks `e.inputLock` exactly once, and the token list the checker read IS the regenerated
+    skeleton of `Execute` (every token split into a known head and its rest) -/
+theorem input_lock_taken_once_in_execute :
+    lockCalls "e.inputLock" (Arca.Proofs.LockFacts.toksOf "workflow_workflow_executableWorkflow_Execute") = 1 ∧
+    (Arca.Proofs.LockFacts.toksOf "workflow_workflow_executableWorkflow_Execute").map join =
+      Arca.Gen.Skel.workflow_workflow_executableWorkflow_Execute ∧
+    wellSplit (Arca.Proofs.LockFacts.toksOf "workflow_workflow_executableWorkflow_Execute") = true := by
+  refine ⟨Arca.Proofs.LockFacts.execute_input_lock_balanced.2, Arca.Proofs.LockFacts.execute_tokens, ?_⟩
+  decide +kernel
+
+/-- the same for every function of the run loop and the providers that takes a lock (a helper into which the validation
+    is moved is covered without being named): see `Arca.Props.C14.every_lock_released_on_every_path` -/
+theorem every_lock_released : Arca.Proofs.LockFacts.lockPairs.all
+    (fun p => Arca.Model.LockBalance.balanced p.2.1 p.2.2 || Arca.Proofs.LockFacts.knownUnbalanced.contains (p.1, p.2.1)) = true :=
+  Arca.Proofs.LockFacts.all_locks_released_on_every_path
 
 /-! ### non-vacuity -/
 
